@@ -161,3 +161,59 @@ func H10_sem() {
 }
 
 var _ = val.True
+
+var reuseProgs = []string{
+	"len(x)", "x.len()", "string(x)", "x.string()", "x == x", "x != x", "max(x, x)", "x + x", "[x][0]", "get([x], 0, x)",
+	"if(c, x, x)", "c ? x : x", "isset([\"k\": x], \"k\")", "-x", "!x", "union([x], [x])", "len([x, x])", "x.a", "x[0]", "get(x, 0)",
+}
+
+// H10_reuse: a parsed tree can be compiled again. Desugar's result must not
+// share nodes with the tree it was given in a way that lets a later phase
+// (the checker annotates call nodes in place) leave marks on the parsed tree:
+// compiling the same parsed tree a second time, against other types, gives
+// what a fresh parse of the same text gives - the sugared spelling and the
+// explicit call alike.
+func H10_reuse() {
+	e := Eng()
+	src := reuseProgs[sv.Choice("prog", len(reuseProgs))]
+	n := CatalogueSize()
+	t1 := Catalogue(sv.Choice("T1", n))
+	t2 := Catalogue(sv.Choice("T2", n))
+	var parsed, fresh ast.Expr
+	cls := sv.Outcome(func() { parsed = e.Parse(src); fresh = e.Parse(src) })
+	sv.Assert("parses", cls == "ok")
+	before := Shape(parsed)
+	names := []string{"x", "c"}
+	compile := func(p ast.Expr, t *types.Type) (ast.Expr, *types.Type, string) {
+		var ex ast.Expr
+		var ty *types.Type
+		c := sv.Outcome(func() { ex, ty = e.CheckAST(p, map[string]*types.Type{"x": t, "c": types.Bool}, names) })
+		return ex, ty, c
+	}
+	_, _, c1 := compile(parsed, t1)
+	sv.Assert("original-untouched-by-compilation", Shape(parsed) == before)
+	e2, ty2, c2 := compile(parsed, t2)
+	ef, tyf, cf := compile(fresh, t2)
+	_ = c1
+	sv.Assert("second-compilation-accepts-what-a-fresh-parse-accepts", (c2 == "ok") == (cf == "ok"))
+	if c2 != "ok" || cf != "ok" {
+		sv.Reach("rejected")
+		return
+	}
+	sv.Assert("second-compilation-infers-the-same-type", RefTypeEq(ty2, tyf))
+	ConcreteTimes = true
+	NumPool = []float64{1, 2.5}
+	MaxLenQuick = 1
+	vals := map[string]*val.Val{"x": AnyVal(t2, "x"), "c": val.True}
+	NumPool = nil
+	MaxLenQuick = 3
+	r2, k2 := runAll(e, e2, vals, names)
+	rf, kf := runAll(e, ef, vals, names)
+	for b := 0; b < NBackends; b++ {
+		sv.Assert("fail-alike:"+BackendNames[b], k2[b] == kf[b])
+		if k2[b] == "ok" && kf[b] == "ok" {
+			sv.Assert("same-value:"+BackendNames[b], RefSameVal(r2[b], rf[b]))
+		}
+	}
+	sv.Reach("compared")
+}
